@@ -15,5 +15,6 @@ CONSTANTS
   MaxAttempts = 1
   M0 = h1
 INVARIANTS TypeOK C01_PromotionSafe C01_SplitBrainMarks NoAckedLoss_SingleFault C06_SuccessMeansDone C11_MarkedNotListed C06_BoundedAttempts
+PROPERTIES SkelOrder
 CONSTRAINT RunBound
 CHECK_DEADLOCK FALSE
